@@ -41,6 +41,7 @@ HeavyMid == {"VerifySignatures", "AuthCheck:event", "AuthCheck:provider", "AddTo
 Heavy3 == {"AuthCheck:event", "AuthCheck:provider", "Resolve:new:both"}
 VersionsTwo == {"5", "12"}
 VersionsPair == {"2", "12"}
+VersionsSix == {"1", "2", "5", "11", "12", "org.matrix.msc4014"}
 VersionsThree == {"2", "10", "12"}
 TypesThree == {"create", "member", "power_levels"}
 TypesTwo == {"member", "power_levels"}
@@ -133,6 +134,7 @@ MakeJoinFields ==
      F("top/event/state_key", "user", "x"), F("top/event/room_id", "room", "x"), F("top/event/depth", "int", "x"),
      F("top/event/signatures", "json", "x"), F("top/event/unsigned", "json", "x"), F("top/event/redacts", "event", "x")}
 JoinClasses(kind) == IF kind = "rvj" THEN {"missing", "null", "number", "array", "empty_str"} \cup Lit({"1", "12", "bogus", "org.matrix.msc4014"})
+                     ELSE IF kind = "refs" THEN RefShapes       \* the builder converts the references of the template
                      ELSE ClassesOf(kind, Depth)
 SendJoinVariants ==
     {<<"none", "echo">>}
